@@ -842,6 +842,31 @@ def obligations(tier):
                   bounds='every real duration x >= 0 (unbounded; timedelta\'s own range limit not modelled)',
                   claim='duration_string(x) raises only for x < 0; the text is in the SDPi grammar PT(nH)?(nM)?(n(.f)?S)?, minutes and '
                         'seconds below 60, and denotes exactly x rounded to microseconds'))
+    sel_stub = ['timedelta / float / re are C code: the texts are assembled from selectors (pools, digit-run lengths) that the solver '
+                'enumerates; the real functions run concretely on each']
+    obs.append(Ob('C18.dur.parse_duration', 'harness.C18', 'duration_parse_runs', bind={'slim': quick}, timeout=300 if quick else 1500,
+                  functions=['sdc11073.xml_types.isoduration.parse_duration', 'sdc11073.xml_types.isoduration.duration_string'],
+                  stubs=sel_stub,
+                  bounds=('PT[nH][nM]n[.f]S with hours in {absent,3}, minutes in {absent,7}, seconds 59, fraction = 0^a D^b 9^c with '
+                          'a+b+c <= 9 and D in {1,5,9}' if quick else
+                          'PT[nH][nM]n[.f]S with hours in {absent,0,3,100}, minutes in {absent,0,7,90}, seconds in {0,5,59,120}, fraction '
+                          '= 0^a D^b 9^c with a+b+c <= 9 and D in 1..9') + ' (0..9 fractional digits)',
+                  claim='parse_duration returns the exact value within half a microsecond (more than 6 fractional digits are allowed by '
+                        'the grammar); duration_string -> parse_duration of the result changes nothing'))
+    obs.append(Ob('C18.datetime.timezones', 'harness.C18', 'datetime_timezones', timeout=200 if quick else 900,
+                  functions=['sdc11073.xml_types.isoduration._tz_to_string', 'sdc11073.xml_types.isoduration._parse_tz',
+                             'sdc11073.xml_types.isoduration.parse_date_time', 'sdc11073.xml_types.isoduration.XsdDateInformation.__str__'],
+                  stubs=sel_stub,
+                  bounds='ALL 1681 whole-minute offsets in [-14:00, +14:00] (the complete xsd time-zone space) on an xsd:date and an '
+                         'xsd:dateTime value',
+                  claim='the written text carries the reference spelling of the offset (Z / sign hh:mm), parses back to the same offset, '
+                        'and is written again identically'))
+    obs.append(Ob('C18.datetime.fields', 'harness.C18', 'datetime_fields', timeout=200 if quick else 900,
+                  functions=['sdc11073.xml_types.isoduration.parse_date_time', 'sdc11073.xml_types.isoduration.XsdDateInformation.__str__'],
+                  stubs=sel_stub,
+                  bounds='gYear / gYearMonth / date / dateTime / end-of-day x 5 seconds values (incl. 59.999999, 7.000001) x 5 time zones '
+                         'x years {1, 1990, 12345, -44}',
+                  claim='str -> parse_date_time -> str round trip: all fields equal, seconds within 1 microsecond, same text'))
     tc = 60 if quick else 300
     maxn = 3 if quick else 4
     obs += [
